@@ -5,10 +5,13 @@
 package main
 
 import (
+	"encoding/binary"
 	"flag"
 	"fmt"
 	"sync"
 	"sync/atomic"
+	"time"
+	"verif/lib/inst"
 
 	"github.com/PowerDNS/lightningstream/lmdbenv/header"
 	"github.com/PowerDNS/lightningstream/lmdbenv/strategy"
@@ -572,5 +575,77 @@ func main() {
 		Note:    "quick tier visits every third ordered pair of the pair space (deterministic stride), thorough visits all",
 		Samples: []any{"fv=3,cutoff=0,defTS=0 stored=live'a'@1 a=in(ts=1,val=\"a\",flags=0) -> no transaction committed"}})
 
+	// ---------- part D: through LoadOnce, first merge into an empty DBI = any later merge ----------
+	{
+		pd := &ev.Part{Name: "loadonce-first-load-and-reload", Engine: "E1", Exhaustive: true}
+		u32 := func(v uint32) []byte { b := make([]byte, 4); binary.LittleEndian.PutUint32(b, v); return b }
+		type kset struct {
+			name  string
+			flags uint64
+			keys  [][]byte
+		}
+		sets := []kset{
+			{"integer-keys", 0x08, [][]byte{u32(1), u32(255), u32(256), u32(65536)}}, // integer order is not byte order
+			{"byte-keys", 0, [][]byte{[]byte("a"), []byte("a\x00"), []byte("b")}},
+		}
+		for _, native := range []bool{true, false} {
+			for _, ks := range sets {
+				for mask := 1; mask < 1<<len(ks.keys); mask++ {
+					bkt := world.NewBucket()
+					a := inst.New("a", bkt, inst.Opt{Native: native})
+					d := snapshot.NewDBISize(256)
+					d.SetName("d")
+					d.SetFlags(ks.flags)
+					want := map[string]bool{}
+					for i, k := range ks.keys {
+						if mask&(1<<i) != 0 {
+							d.Append(snapshot.KV{Key: k, Value: []byte("v"), TimestampNano: 1000 + uint64(i)})
+							want[string(k)] = true
+						}
+					}
+					msg := &snapshot.Snapshot{FormatVersion: 3, CompatVersion: 1, Databases: []*snapshot.DBI{d}}
+					msg.Meta.InstanceID = "b"
+					data, _, err := snapshot.DumpData(msg)
+					if err != nil {
+						ev.Fatal("dump: %v", err)
+					}
+					name := snapshot.Name(inst.DBName, "b", "GX", time.Unix(1, 0))
+					content := func() string {
+						pick := world.PickNative
+						if !native {
+							pick = world.PickShadow
+						}
+						lc, err := world.HeaderLC(a.Env.RawDump(), pick)
+						if err != nil {
+							return "malformed: " + err.Error()
+						}
+						return lc.String()
+					}
+					rep := map[string]any{"native": native, "keys": ks.name, "subset": mask}
+					pd.Executions++
+					pd.Transitions += 2
+					if _, _, err := a.Load(name, data, 0); err != nil {
+						r.Violate(pd.Name, "load-error", fmt.Sprintf("%s subset %b native=%v: %v", ks.name, mask, native, err), rep)
+						a.Destroy()
+						continue
+					}
+					first := content()
+					lc, _ := world.HeaderLC(a.Env.RawDump(), map[bool]func(string) string{true: world.PickNative, false: world.PickShadow}[native])
+					if len(lc["d"]) != len(want) {
+						r.Violate(pd.Name, "first-load-incomplete", fmt.Sprintf("%s subset %b native=%v: %d of %d entries merged into the empty DBI: %s", ks.name, mask, native, len(lc["d"]), len(want), first), rep)
+					}
+					if _, _, err := a.Load(name, data, 1<<62); err != nil {
+						r.Violate(pd.Name, "load-error", fmt.Sprintf("%s subset %b native=%v (second load): %v", ks.name, mask, native, err), rep)
+					} else if second := content(); second != first {
+						r.Violate(pd.Name, "merge-not-idempotent-through-loadonce", fmt.Sprintf("%s subset %b native=%v: after one load %s, after loading the same snapshot again %s", ks.name, mask, native, first, second), rep)
+					}
+					a.Destroy()
+				}
+			}
+		}
+		pd.States, pd.Distinct = pd.Executions, 2
+		pd.Bound = "native and shadow x every non-empty subset of {1,255,256,65536} on an MDB_INTEGERKEY DBI and of {a,a00,b} on a plain DBI: real LoadOnce into an instance without the DBI, then the same snapshot again"
+		r.AddPart(pd)
+	}
 	r.Finish()
 }
